@@ -174,10 +174,17 @@ def best_of_pairs(it, fr):
     """every (gather, argmax) pair of a function: gather_by_index / unbatchify_and_gather nodes whose index operand is
     `max(...)[1]`; returns [(gather node, max node, gather axis, max axis, regrouping factors agree)]"""
     roots = []
+
+    def flat(v):
+        if isinstance(v, vg.S):
+            return [v]
+        if isinstance(v, vg.Tup):
+            return [y for x in v.items for y in flat(it.sym(x) if not isinstance(x, (vg.TD, vg.Tup)) else x)]
+        return []
     for f in [fr] + list(it.call_frames):
         roots += [v for v in f.locals.values() if isinstance(v, vg.S)]
         for c, v in f.returns:
-            roots.append(v)
+            roots += flat(v)
     for e in it.events:
         if e.kind == "methcall":
             roots += [x for x in e.data[2] if isinstance(x, vg.S)]
@@ -282,6 +289,59 @@ def arange_sites(ctx: Ctx):
     return n
 
 
+def _interleave_calls(tree):
+    """(call node, tensor text, count text) for every x.repeat_interleave(k, dim=0) / torch.repeat_interleave(x, k, dim=0) whose
+    count is a replica factor: an instance-major k-fold expansion of a batch-leading tensor"""
+    out = []
+    for node in ast.walk(tree):
+        if not (isinstance(node, ast.Call) and isinstance(node.func, ast.Attribute) and node.func.attr == "repeat_interleave"):
+            continue
+        if isinstance(node.func.value, ast.Name) and node.func.value.id == "torch":
+            if len(node.args) < 2:
+                continue
+            x, k, rest = node.args[0], node.args[1], node.args[2:]
+        else:
+            if not node.args:
+                continue
+            x, k, rest = node.func.value, node.args[0], node.args[1:]
+        dim = next((kw_.value for kw_ in node.keywords if kw_.arg == "dim"), rest[0] if rest else None)
+        if not (isinstance(dim, ast.Constant) and dim.value == 0):
+            continue
+        base = x
+        while isinstance(base, ast.Call) and isinstance(base.func, ast.Attribute) and base.func.attr in ("to", "long", "int"):
+            base = base.func.value
+        if isinstance(base, ast.Call) and ast.unparse(base.func) == "torch.arange":
+            continue  # index constructions are judged by arange_sites
+        if role(ast.unparse(k)) == "replica":
+            out.append((node, ast.unparse(x), ast.unparse(k)))
+    return out
+
+
+def expansion_sites(ctx: Ctx):
+    """k-fold expansions outside ops.batchify: repeat_interleave(k, dim=0) yields rows (b, r) -> b*k + r, i.e. instance-major,
+    while every regrouping (unbatchify, best-of) assumes the (replica, batch) layout of batchify"""
+    # positive control: the detector must match a known instance-major expansion and ignore a tiling
+    ctl = ast.parse("def f(x, num_starts):\n    a = x.repeat_interleave(num_starts, dim=0)\n    b = x.repeat(num_starts, 1)\n    return a, b")
+    if len(_interleave_calls(ctl)) != 1:
+        raise AnalysisError("positive control of the expansion-site detector failed")
+    n = 0
+    for mi in ctx.repo.modules.values():
+        if not mi.name.startswith("rl4co.models") and not mi.name.startswith("rl4co.utils") and not mi.name.startswith("rl4co.tasks"):
+            continue
+        hits = _interleave_calls(mi.tree)
+        for node, x_txt, k_txt in hits:
+            ctx.repo.note(mi)
+            fn, _ = ctx.repo.locate(mi.relpath, node.lineno, node.col_offset, getattr(node, "end_lineno", 0), getattr(node, "end_col_offset", 0))
+            n += 1
+            ctx.ob("C12.a", f"{fn}:repeat_interleave({k_txt}, dim=0)", False, f"{mi.relpath}:{node.lineno}",
+                   f"`{x_txt}` is expanded {k_txt}-fold with repeat_interleave on the batch axis: row b*k + r holds instance b (instance-major), but batchify / unbatchify / the "
+                   f"replicated env state use row r*B + b (batch-minor): replica rows are paired with other instances' tensors", construct=f"{fn}:interleave:{x_txt}")
+    ctx.ob("C12.a", "package:no-instance-major-expansion", n == 0, "rl4co/utils/ops.py:1",
+           "no tensor is expanded by a replica factor with repeat_interleave(k, dim=0) in rl4co.models / rl4co.utils / rl4co.tasks (detector exercised on a positive control)" if n == 0 else f"{n} instance-major expansion(s), see above",
+           construct="package:interleave-expansions")
+    return n
+
+
 def norm_factor(txt: str):
     """product normal form of a replication factor expression: tuple -> product of elements"""
     t = ast.parse(txt, mode="eval").body
@@ -333,6 +393,24 @@ def factor_sites(ctx: Ctx):
         it = vg.Interp(ctx.repo, fi.cls, inline_policy=lambda f, a: False)
         fr = it.run_function(fi)
         pairs = best_of_pairs(it, fr)
+        if fn.endswith("._select_best"):
+            # everything handed back (log-probs, actions, final state) is the best replica's: gathered with one and the same argmax
+            ret = fr.ret
+            items = ret.items if isinstance(ret, vg.Tup) else (list(ret.args) if isinstance(ret, vg.S) and ret.op == "tuple" else [])
+            idxs, plain = [], []
+            for i_, x in enumerate(items[:3]):
+                x = it.sym(x) if not isinstance(x, (vg.TD, vg.Tup)) else x
+                f_ = nf._fn(x) if isinstance(x, vg.S) else None
+                if f_ is not None and (f_.endswith(":unbatchify_and_gather") or f_.endswith(":gather_by_index")) and len(x.args) >= 3:
+                    idxs.append(x.args[2])
+                else:
+                    plain.append(i_)
+            same_idx = len(idxs) == 3 and all(i_ is idxs[0] for i_ in idxs) and idxs[0].op == "sub" and vg.is_const(idxs[0].args[1], 1)
+            ctx.ob("C12.c", f"{fn}:all-outputs-of-best-replica", same_idx, fi.loc,
+                   "log-probs, actions and final state are all gathered with the same argmax index" if same_idx else
+                   f"returned item(s) {plain} are not gathered with the argmax index: they belong to another replica than the returned actions (state-derived rewards / solutions disagree with the actions)",
+                   construct=f"{fn}:outputs")
+            floor = min(floor, max(1, len(pairs)))
         if len(pairs) < floor:
             raise AnalysisError(f"{fn}: expected >= {floor} (argmax, gather) pairs, found {len(pairs)}")
         bad = [(g, m, ag, am, agree) for g, m, ag, am, agree in pairs if ag is None or am is None or ag != am or agree is False]
@@ -383,43 +461,6 @@ def start_nodes(ctx: Ctx):
     unsupported = set(next((l for l in sl if "jssp" in l), []))
     if not minus_one or not no_depot:
         raise AnalysisError("get_num_starts / select_start_nodes: env-name tables not found")
-    # registry: env name -> class
-    reg_mi = ctx.repo.module("rl4co.envs")
-    reg = reg_mi.assigns.get("ENV_REGISTRY")
-    if reg is None or not isinstance(reg, _ast.Dict):
-        raise AnalysisError("ENV_REGISTRY not found")
-    n = 0
-    for k, v in zip(reg.keys, reg.values):
-        name = k.value
-        r = ctx.repo.resolve_global(reg_mi, v.id) if isinstance(v, _ast.Name) else None
-        if r is None or r[0] != "class":
-            continue
-        cls = r[1]
-        own_sel = ctx.repo.resolve_method(cls, "select_start_nodes")
-        own_num = ctx.repo.resolve_method(cls, "get_num_starts")
-        overrides = (own_sel is not None and own_sel.cls.name != "RL4COEnvBase") or (own_num is not None and own_num.cls.name != "RL4COEnvBase")
-        if overrides or name in unsupported:
-            continue
-        n += 1
-        if name in no_depot:
-            ok, why = name not in minus_one, "no depot: indices 0..k-1 of a mask of width k"
-        else:
-            # depot-style branch: selected = arange(k) % num_loc + 1 ; in range iff k <= width - 1 or the modulo wraps (generator.num_loc exists)
-            g = generator_class(ctx.repo, cls)
-            has_num_loc = False
-            if g is not None:
-                for c in ctx.repo.mro(g):
-                    if isinstance(c, str):
-                        continue
-                    for m in c.methods.values():
-                        for a in _ast.walk(m.node):
-                            if isinstance(a, _ast.Attribute) and isinstance(a.value, _ast.Name) and a.value.id == "self" and a.attr == "num_loc" and isinstance(a.ctx, _ast.Store):
-                                has_num_loc = True
-            counted = name in minus_one or (name == "pdp" and pdp_special)
-            ok = counted or has_num_loc
-            why = (f"index 0 is skipped (+1); default number of starts excludes it: {counted}; generator.num_loc bounds the index by modulo: {has_num_loc}" +
-                   ("" if ok else f" -- with the default num_starts = mask width the selected indices run up to the mask width itself (out of range) for env '{name}'"))
-        ctx.ob("C12.d", f"start-range:{name}", ok, ss.loc, why, construct=f"select_start_nodes:range:{name}")
     # ---- the formulas, on the value graph
     def replica_index(x):
         """x == arange(num_starts).repeat_interleave(<batch size>) % M  ->  M (else None)"""
@@ -448,6 +489,70 @@ def start_nodes(ctx: Ctx):
     it = vg.Interp(ctx.repo, None, inline_policy=lambda f, a: False)
     fr = it.run_function(ss)
     alts = [(g, v) for c, v0 in fr.returns for g, v in guarded(v0)]
+    # width-relative modulus of the two branches of the generic helper (computed from the instance's action mask)
+    def width_offset(M):
+        """k when M == action_mask.shape[-1] - k, else None"""
+        if not isinstance(M, vg.S):
+            return None
+        pm = nf.poly(M)
+        ws = [a_ for a_ in pm.atoms() if dim_of(a_) is not None and dim_of(a_)[1] == -1 and "action_mask" in vg.show(dim_of(a_)[0], 3)]
+        if len(ws) != 1:
+            return None
+        rest = nf.Poly.atom(ws[0]) - pm
+        mon = rest.monos()
+        if not mon:
+            return 0
+        if len(mon) == 1 and not mon[0][1] and mon[0][0].denominator == 1:
+            return int(mon[0][0])
+        return None
+    depot_offsets, plain_offsets = set(), set()
+    for g_, v_ in alts:
+        if not isinstance(v_, vg.S) or (nf._fn(v_) or "").endswith("rearrange"):
+            continue
+        if v_.op == "%":
+            plain_offsets.add(width_offset(replica_index(v_)))
+        else:
+            mods_ = [a_ for a_ in nf.poly(v_).atoms() if a_.op == "%"]
+            if len(mods_) == 1:
+                depot_offsets.add(width_offset(replica_index(mods_[0])))
+    # registry: env name -> class
+    reg_mi = ctx.repo.module("rl4co.envs")
+    reg = reg_mi.assigns.get("ENV_REGISTRY")
+    if reg is None or not isinstance(reg, _ast.Dict):
+        raise AnalysisError("ENV_REGISTRY not found")
+    n = 0
+    for k, v in zip(reg.keys, reg.values):
+        name = k.value
+        r = ctx.repo.resolve_global(reg_mi, v.id) if isinstance(v, _ast.Name) else None
+        if r is None or r[0] != "class":
+            continue
+        cls = r[1]
+        own_sel = ctx.repo.resolve_method(cls, "select_start_nodes")
+        own_num = ctx.repo.resolve_method(cls, "get_num_starts")
+        overrides = (own_sel is not None and own_sel.cls.name != "RL4COEnvBase") or (own_num is not None and own_num.cls.name != "RL4COEnvBase")
+        if overrides or name in unsupported:
+            continue
+        n += 1
+        if name in no_depot:
+            ok, why = name not in minus_one and (plain_offsets <= {0, None}), "no depot: indices 0..k-1 of a mask of width k"
+        else:
+            # depot-style branch: selected = arange(k) % num_loc + 1 ; in range iff k <= width - 1 or the modulo wraps (generator.num_loc exists)
+            g = generator_class(ctx.repo, cls)
+            has_num_loc = False
+            if g is not None:
+                for c in ctx.repo.mro(g):
+                    if isinstance(c, str):
+                        continue
+                    for m in c.methods.values():
+                        for a in _ast.walk(m.node):
+                            if isinstance(a, _ast.Attribute) and isinstance(a.value, _ast.Name) and a.value.id == "self" and a.attr == "num_loc" and isinstance(a.ctx, _ast.Store):
+                                has_num_loc = True
+            counted = name in minus_one or (name == "pdp" and pdp_special)
+            wraps = depot_offsets == {1}
+            ok = counted or has_num_loc or wraps
+            why = (f"index 0 is skipped (+1); default number of starts excludes it: {counted}; the index is wrapped modulo (mask width - 1): {wraps}" +
+                   ("" if ok else f" -- with the default num_starts = mask width the selected indices run up to the mask width itself (out of range) for env '{name}'"))
+        ctx.ob("C12.d", f"start-range:{name}", ok, ss.loc, why, construct=f"select_start_nodes:range:{name}")
     n_plain = n_depot = 0
     ok, why = True, []
     op_alt = None
@@ -478,8 +583,42 @@ def start_nodes(ctx: Ctx):
                 ok = False
                 why.append(f"depot branch returns {vg.show(v, 4)}")
     ok = ok and n_plain >= 1 and n_depot >= 1
+    if depot_offsets != {1} or plain_offsets != {0}:
+        ok = False
+        why.append(f"modulus = mask width - {sorted(map(str, plain_offsets))} (no-depot branch, needs 0) / mask width - {sorted(map(str, depot_offsets))} (depot branch, needs 1): "
+                   "otherwise an index can reach the mask width or the wrap-around skips nodes")
     ctx.ob("C12.d", "select_start_nodes:formula", ok, ss.loc, f"replica index r // B modulo num_loc ({n_plain} no-depot alternative(s)), + 1 for depot-style envs ({n_depot} alternative(s))" + ("; " + "; ".join(why) if why else ""),
            construct="select_start_nodes:formula")
+    # the modulus that wraps the replica index is the instance's own node count (a td shape), not a configuration value of the env
+    def modulus_source(M):
+        """'instance' when M is computed from tensor shapes of the instance; 'config' when it reads generator / env attributes"""
+        if not isinstance(M, vg.S):
+            return "?"
+        cfg = [n for n in vg.walk(M) if (n.op == "attr" and n.args[1] in ("num_loc", "num_customers", "num_nodes") and "generator" in vg.show(n.args[0], 3)) or
+               (n.op == "selfattr" and n.args[0] in ("num_loc",))]
+        inst = [n for n in vg.walk(M) if dim_of(n) is not None]
+        if cfg:
+            return "config"
+        return "instance" if inst else "?"
+    mods_generic = [replica_index(v) if isinstance(v, vg.S) and v.op == "%" else next((replica_index(a) for a in (nf.poly(v).atoms() if isinstance(v, vg.S) else []) if a.op == "%"), None) for g, v in alts]
+    srcs_generic = sorted({modulus_source(m) for m in mods_generic if m is not None})
+    ctx.ob("C12.d", "select_start_nodes:modulus-from-instance", srcs_generic == ["instance"], ss.loc,
+           "the replica index is wrapped modulo the node count of the instance at hand" if srcs_generic == ["instance"] else
+           "the replica index is wrapped modulo env.generator.num_loc, a configuration value: for an instance with more customers than the env was configured for "
+           "(e.g. a loaded benchmark file) the forced starts repeat although enough distinct feasible starts exist", construct="select_start_nodes:modulus:env.generator.num_loc")
+    for rel_, fq_ in (("rl4co/envs/routing/pdp/env.py", "PDPEnv.select_start_nodes"), ("rl4co/envs/routing/mtvrp/env.py", "MTVRPEnv.select_start_nodes"),
+                      ("rl4co/envs/graph/flp/env.py", "FLPEnv.select_start_nodes"), ("rl4co/envs/graph/mcp/env.py", "MCPEnv.select_start_nodes")):
+        f_ = ctx.repo.get_function(rel_, fq_)
+        ctx.fn(f_)
+        it_ = vg.Interp(ctx.repo, f_.cls, inline_policy=lambda f, a: False)
+        r_ = it_.run_function(f_).ret
+        ms = [replica_index(a) for a in ([r_] if isinstance(r_, vg.S) and r_.op == "%" else (nf.poly(r_).atoms() if isinstance(r_, vg.S) else [])) if a.op == "%"]
+        ms = [m for m in ms if m is not None]
+        src_ = sorted({modulus_source(m) for m in ms})
+        ctx.ob("C12.d", f"{fq_}:modulus-from-instance", src_ == ["instance"], f_.loc,
+               f"start index = replica index modulo a node count read from the instance tensors: {src_}" if src_ == ["instance"] else
+               f"the modulus of the start index is {src_ or 'not recognised'}: it must be the node count of the instance at hand, not a configuration value of the env's generator",
+               construct=f"{fq_}:modulus")
     # OP: starts are re-drawn from the feasible non-depot nodes exactly when some instance has fewer than num_starts of them
     okp, whyp = False, "OP resampling alternative not found"
     if op_alt is not None:
@@ -607,6 +746,7 @@ def run(ctx: Ctx):
     n1 = einops_sites(ctx)
     n2 = arange_sites(ctx)
     factor_sites(ctx)
+    expansion_sites(ctx)
     n3 = start_nodes(ctx)
     ctx.extra["einops_batch_groups"] = n1
     ctx.extra["arange_sites"] = n2
